@@ -10,7 +10,10 @@ from . import runner
 
 
 def _same(prop, cfg, steps, signature):
-    res = runner.replay(prop, cfg, steps)
+    try:
+        res = runner.replay(prop, cfg, steps)
+    except Exception:  # a simplified candidate may be outside what the oracles model
+        return False
     return res.violation is not None and res.violation["signature"] == signature
 
 
